@@ -112,7 +112,14 @@ impl Doc {
             if let Some((a, b)) = prefix.split_once('\n') {
                 self.emphasis(a);
                 self.tokens.push(Token::BlockStart(Block::Section3));
-                self.text(b);
+                // blank line right after the first line is a paragraph break: the rest belongs
+                // to the full help only, same as for any other help message
+                if let Some(rest) = b.strip_prefix('\n') {
+                    self.text("\n\n");
+                    self.text(rest);
+                } else {
+                    self.text(b);
+                }
 
                 if buf.tokens.len() > 1 {
                     self.tokens.extend(&buf.tokens[1..]);
